@@ -35,3 +35,60 @@ Definition call_gat (t : tier) (q : hreq) (k : gres -> option N -> prog) : prog 
 (* `err = l.res.Set(...)`: the responder call happens; its own (socket write) error is not
    modelled, so the variable becomes nil *)
 Definition emit_err (c : rcall) (k : option N -> prog) : prog := Emit c (k None).
+
+(* ---------------- Get / GetE: the channel-draining loop ----------------
+   `resChan, errChan := l.lN.Get(req)` followed by
+
+       for {
+         select {
+         case res, ok := <-resChan:    if !ok { resChan = nil } else { BODY }
+         case getErr, ok := <-errChan: if !ok { errChan = nil } else { ONERR }
+         }
+         if resChan == nil && errChan == nil { break }
+       }
+
+   THE HANDLER CONTRACT (handlers/types.go, restated in the comment above each of these loops): the
+   handler sends its responses in order on the first channel, then at most one error on the second,
+   after which no more responses come, and closes both. That is exactly the shape of the model's
+   handler result [HVals rs eo]. Under the contract the loop is: BODY for each response in order,
+   then ONERR if there is an error — [drain]. The contract is a hypothesis, not a consequence of
+   Go's channel semantics: the two channels are independent, and with a buffered response channel
+   (handlers/inmem) a `select` may take a pending error before responses that were sent earlier;
+   the assumed receive order is: every response, in the order of [rs], before the error. (The
+   discovery that a channel is closed only sets the channel variable to nil and can come in any
+   order.) A result that is not a list of values is read like everywhere else: an error return is no values and that error,
+   anything else no values and an I/O error.
+
+   The loop's state [S] is the tuple of the variables declared outside the loop that BODY or ONERR
+   assign; BODY and ONERR are in continuation-passing form like everything else (they may make
+   handler calls: the back-fill of L1L2Orca.Get). *)
+Definition hvals (h : hres) : list gres * option N :=
+  match h with HVals rs e => (rs, e) | HErr e => ([], Some e) | HDone => ([], Some EIO) end.
+
+Fixpoint drain_res {S : Type} (body : gres -> S -> (S -> prog) -> prog) (rs : list gres) (s : S)
+    (k : S -> prog) : prog :=
+  match rs with
+  | [] => k s
+  | g :: rest => body g s (fun s' => drain_res body rest s' k)
+  end.
+
+Definition drain_end {S : Type} (onerr : option N -> S -> (S -> prog) -> prog) (eo : option N) (s : S)
+    (k : S -> prog) : prog :=
+  match eo with None => k s | Some e => onerr (Some e) s k end.
+
+Definition drain {S : Type} (t : tier) (q : hreq) (s0 : S)
+    (body : gres -> S -> (S -> prog) -> prog) (onerr : option N -> S -> (S -> prog) -> prog)
+    (k : S -> prog) : prog :=
+  Call t q (fun h => drain_res body (fst (hvals h)) s0 (fun s => drain_end onerr (snd (hvals h)) s k)).
+
+(* common.GetRequest: three parallel slices Keys / Opaques / Quiet. The handlers index all three by
+   the position of the key (a shorter Opaques or Quiet slice is an index-out-of-range panic there;
+   here the list is cut at the shortest: the link lemmas only meet slices of equal length). *)
+Fixpoint gitems (ks : list bytes) (os : list N) (qs : list bool) : list gitem :=
+  match ks, os, qs with
+  | k :: ks', o :: os', q :: qs' => mkGI k o q :: gitems ks' os' qs'
+  | _, _, _ => []
+  end.
+
+(* len(x) == 0 *)
+Definition is_empty {A : Type} (l : list A) : bool := match l with [] => true | _ => false end.
